@@ -122,6 +122,51 @@ Proof.
         exists (S j), t0. cbn [nth_error]. split; [assumption|]. split; [lia|]. split; assumption.
 Qed.
 
+(** * Upsert by (pool, txid, output index) versus upsert by nullifier
+
+    The code (and the model) find the row of a received note by (transaction, output index);
+    the proofs reason with the nullifier as key.  The two coincide whenever identity and
+    nullifier determine each other ([keyed]), which a [valid_universe] guarantees. *)
+
+Fixpoint put_note_k (k : key) (acct value recv idx : N) (sp : option N) (l : list note) : list note :=
+  match l with
+  | [] => [mkNote k acct value recv idx (add_spender sp [])]
+  | n :: l' =>
+      if key_eqb (n_key n) k
+      then mkNote k acct value recv idx (add_spender sp (n_spent n)) :: l'
+      else n :: put_note_k k acct value recv idx sp l'
+  end.
+
+Definition keyed (l : list note) (k : key) (recv idx : N) : Prop :=
+  forall n, In n l -> id_match n k recv idx = key_eqb (n_key n) k.
+
+Lemma put_note_keyed k a v recv idx sp : forall l,
+  keyed l k recv idx -> put_note k a v recv idx sp l = put_note_k k a v recv idx sp l.
+Proof.
+  induction l as [|n l IH]; intros H; cbn [put_note put_note_k]; [reflexivity|].
+  rewrite (H n (or_introl eq_refl)). destruct (key_eqb (n_key n) k); [reflexivity|].
+  f_equal. apply IH. intros n' Hn'. apply H. right. assumption.
+Qed.
+
+(** (pool, index) and nullifier of two outputs of one transaction determine each other *)
+Definition pairc (o o' : out) : Prop :=
+  N.eqb (o_pool o) (o_pool o') && N.eqb (o_idx o) (o_idx o') = key_eqb (o_key o) (o_key o').
+
+Lemma keyed_put_k k a v recv idx sp k' idx' : forall l,
+  keyed l k' recv idx' ->
+  N.eqb (fst k) (fst k') && N.eqb idx idx' = key_eqb k k' ->
+  keyed (put_note_k k a v recv idx sp l) k' recv idx'.
+Proof.
+  intros l Hl Hp.
+  assert (Hnew : forall spl, id_match (mkNote k a v recv idx spl) k' recv idx' = key_eqb (n_key (mkNote k a v recv idx spl)) k').
+  { intros spl. unfold id_match. cbn [n_key n_recv n_idx]. rewrite N.eqb_refl, andb_true_r. exact Hp. }
+  induction l as [|n l IH]; cbn [put_note_k].
+  - intros n' [<- | []]. apply Hnew.
+  - destruct (key_eqb (n_key n) k).
+    + intros n' [<- | Hn']; [apply Hnew | apply Hl; right; assumption].
+    + intros n' [<- | Hn']; [apply Hl; left; reflexivity|]. apply IH; [|assumption]. intros x Hx. apply Hl. right. assumption.
+Qed.
+
 (** * Soundness invariant: every row of the wallet comes from the chain *)
 
 Section Sound.
@@ -130,10 +175,11 @@ Variable c : list block.
     notes and their spenders may stem from any of them, scanned blocks only from [c]. *)
 Variable U : list block.
 Hypothesis HcU : incl c U.
+Hypothesis HU : valid_universe U.
 
 Definition note_sound (n : note) : Prop :=
   (exists b t o, In b U /\ In t (b_txs b) /\ In o (t_outs t) /\ o_owner o = Some (n_acct n)
-                 /\ o_key o = n_key n /\ o_value o = n_value n /\ t_id t = n_recv n)
+                 /\ o_key o = n_key n /\ o_value o = n_value n /\ t_id t = n_recv n /\ o_idx o = n_idx n)
   /\ (forall tid, In tid (n_spent n) ->
         exists b t, In b U /\ In t (b_txs b) /\ t_id t = tid /\ In (n_key n) (t_spends t)).
 
@@ -188,7 +234,7 @@ Proof. intros. eapply heights_from_inj; eauto. Qed.
 Lemma mark_spent_spec txs k tid : forall l l',
   mark_spent txs k tid l = Some l' ->
   map n_key l' = map n_key l
-  /\ Forall2 (fun n n' => n' = n \/ (n_key n = k /\ n' = mkNote (n_key n) (n_acct n) (n_value n) (n_recv n) (n_spent n ++ [tid]))) l l'.
+  /\ Forall2 (fun n n' => n' = n \/ (n_key n = k /\ n' = mkNote (n_key n) (n_acct n) (n_value n) (n_recv n) (n_idx n) (n_spent n ++ [tid]))) l l'.
 Proof.
   induction l as [|n l IH]; intros l' H; cbn [mark_spent] in H.
   - inversion H; subst. split; [reflexivity | constructor].
@@ -234,17 +280,17 @@ Qed.
 
 (** ** put_note *)
 
-Lemma put_note_spec k a v r sp : forall l,
+Lemma put_note_spec k a v r idx sp : forall l,
   NoDup (map n_key l) ->
-  NoDup (map n_key (put_note k a v r sp l))
-  /\ forall n', In n' (put_note k a v r sp l) ->
-       In n' l \/ (n_key n' = k /\ n_acct n' = a /\ n_value n' = v /\ n_recv n' = r
+  NoDup (map n_key (put_note_k k a v r idx sp l))
+  /\ forall n', In n' (put_note_k k a v r idx sp l) ->
+       In n' l \/ (n_key n' = k /\ n_acct n' = a /\ n_value n' = v /\ n_recv n' = r /\ n_idx n' = idx
                    /\ forall x, In x (n_spent n') -> sp = Some x \/ exists n, In n l /\ n_key n = k /\ In x (n_spent n)).
 Proof.
   assert (Hadd : forall x l0, In x (add_spender sp l0) -> sp = Some x \/ In x l0).
   { intros x l0. unfold add_spender. destruct sp as [t|]; [|auto].
     destruct (memN t l0); [auto|]. intros Hx. apply in_app_or in Hx. destruct Hx as [Hx | [<- | []]]; auto. }
-  induction l as [|n l IH]; intros Hnd; cbn [put_note].
+  induction l as [|n l IH]; intros Hnd; cbn [put_note_k].
   - split; [cbn; constructor; [intros [] | constructor]|].
     intros n' [<- | []]. right. cbn. repeat split; try reflexivity.
     intros x Hx. destruct (Hadd _ _ Hx) as [? | []]; auto.
@@ -262,9 +308,36 @@ Proof.
         -- apply Hnin. apply in_map_iff. exists n'. split; assumption.
         -- rewrite Ek' in Ek. rewrite <- Ek in E. rewrite key_eqb_refl in E. discriminate.
       * intros n' [<- | Hin]; [left; left; reflexivity|].
-        destruct (IH2 _ Hin) as [Hold | [Ek [Ea [Ev [Er Hs]]]]]; [left; right; assumption|].
+        destruct (IH2 _ Hin) as [Hold | [Ek [Ea [Ev [Er [Ei Hs]]]]]]; [left; right; assumption|].
         right. repeat split; try assumption.
         intros x Hx. destruct (Hs x Hx) as [? | [n0 [H0 [H1 H2]]]]; [auto|]. right. exists n0. split; [right; assumption | auto].
+Qed.
+
+(** identity and nullifier of the rows of a sound table agree with those of any output of the universe *)
+Lemma keyed_of_sound l b t o :
+  Forall note_sound l -> In b U -> In t (b_txs b) -> In o (t_outs t) ->
+  keyed l (o_key o) (t_id t) (o_idx o).
+Proof.
+  intros Hs Hb Ht Ho n Hn. rewrite Forall_forall in Hs.
+  destruct (Hs _ Hn) as [[bU [tU [oU [HbU [HtU [HoU [_ [Ek [_ [Er Ei]]]]]]]]]] _].
+  unfold id_match. destruct (key_eqb (n_key n) (o_key o)) eqn:E.
+  - apply key_eqb_eq in E. destruct (vu_out _ HU bU tU oU b t o) as [-> ->]; auto; [congruence|].
+    rewrite <- Er, <- Ei, E. cbn [o_key fst]. rewrite !N.eqb_refl. reflexivity.
+  - destruct (N.eqb (fst (n_key n)) (fst (o_key o)) && N.eqb (n_recv n) (t_id t) && N.eqb (n_idx n) (o_idx o)) eqn:Em; [|reflexivity].
+    exfalso. rewrite !andb_true_iff, !N.eqb_eq in Em. destruct Em as [[Ep Erecv] Eidx].
+    assert (tU = t) by (apply (vu_tx _ HU bU tU b t); auto; congruence). subst tU.
+    assert (oU = o).
+    { apply (vu_idx _ HU b t oU o); auto; [|congruence]. rewrite <- Ek in Ep. cbn [o_key fst] in Ep. assumption. }
+    subst oU. rewrite Ek, key_eqb_refl in E. discriminate.
+Qed.
+
+Lemma pairc_universe b t o o' : In b U -> In t (b_txs b) -> In o (t_outs t) -> In o' (t_outs t) -> pairc o o'.
+Proof.
+  intros Hb Ht Ho Ho'. unfold pairc. destruct (key_eqb (o_key o) (o_key o')) eqn:E.
+  - apply key_eqb_eq in E. destruct (vu_out _ HU b t o b t o') as [_ ->]; auto. rewrite !N.eqb_refl. reflexivity.
+  - destruct (N.eqb (o_pool o) (o_pool o') && N.eqb (o_idx o) (o_idx o')) eqn:Em; [|reflexivity]. exfalso.
+    rewrite andb_true_iff, !N.eqb_eq in Em. destruct Em as [Ep Ei].
+    assert (o = o') by (apply (vu_idx _ HU b t o o'); auto). subst. rewrite key_eqb_refl in E. discriminate.
 Qed.
 
 (** ** detect_spend, put_outputs, put_wtx(s) *)
@@ -295,21 +368,24 @@ Lemma put_outputs_sound nfm locs recv (Hn : Forall nfe_sound nfm) (Hl : Forall l
 Proof.
   induction os as [|o os IH]; intros txs notes txs' notes' Hos H Hs Hnd; cbn [put_outputs] in H.
   - inversion H; subst. auto.
-  - eapply IH in H; [exact H | intros; apply Hos; right; assumption | |].
-    + destruct (put_note_spec (o_key o) (out_acct o) (o_value o) recv
+  - destruct (Hos o (or_introl eq_refl)) as [Hown [b [t [Hb [Ht [Ho Hid]]]]]].
+    assert (Hk : keyed notes (o_key o) recv (o_idx o)).
+    { rewrite <- Hid. apply (keyed_of_sound notes b t o Hs (HcU _ Hb) Ht Ho). }
+    rewrite (put_note_keyed _ _ _ _ _ _ _ Hk) in H.
+    eapply IH in H; [exact H | intros; apply Hos; right; assumption | |].
+    + destruct (put_note_spec (o_key o) (out_acct o) (o_value o) recv (o_idx o)
                  (match detect_spend nfm locs (o_key o) with Some (t, _) => Some t | None => None end) notes Hnd) as [_ Hin].
-      rewrite Forall_forall. intros n' Hn'. destruct (Hin _ Hn') as [Hold | [Ek [Ea [Ev [Er Hsp]]]]].
+      rewrite Forall_forall. intros n' Hn'. destruct (Hin _ Hn') as [Hold | [Ek [Ea [Ev [Er [Ei Hsp]]]]]].
       * rewrite Forall_forall in Hs. auto.
-      * destruct (Hos o (or_introl eq_refl)) as [Hown [b [t [Hb [Ht [Ho Hid]]]]]].
-        split.
+      * split.
         -- exists b, t, o. repeat split; try assumption; try congruence; [apply HcU; assumption|].
            unfold owned in Hown. unfold out_acct in Ea. destruct (o_owner o); [congruence | discriminate].
-        -- intros x Hx. destruct (Hsp x Hx) as [Hd | [n [Hn0 [Hk Hx']]]].
+        -- intros x Hx. destruct (Hsp x Hx) as [Hd | [n [Hn0 [Hk0 Hx']]]].
            ++ destruct (detect_spend nfm locs (o_key o)) as [[t' h']|] eqn:Ed; [|discriminate].
               inversion Hd; subst. rewrite Ek.
               destruct (detect_spend_sound _ _ _ _ _ Hn Hl Ed) as [b1 [t1 [Hb1 Hrest]]]. exists b1, t1. split; [apply HcU; assumption | assumption].
-           ++ rewrite Forall_forall in Hs. destruct (Hs _ Hn0) as [_ Hs2]. rewrite Ek, <- Hk. auto.
-    + apply (put_note_spec (o_key o) (out_acct o) (o_value o) recv _ notes Hnd).
+           ++ rewrite Forall_forall in Hs. destruct (Hs _ Hn0) as [_ Hs2]. rewrite Ek, <- Hk0. auto.
+    + apply (put_note_spec (o_key o) (out_acct o) (o_value o) recv (o_idx o) _ notes Hnd).
 Qed.
 
 Lemma put_wtxs_sound h nfm locs (Hn : Forall nfe_sound nfm) (Hl : Forall loc_sound locs) :
